@@ -701,9 +701,10 @@ def correspondence(ctx):
 # ------------------------------------------------------------------ oracle (no model)
 
 def norm_time(v):
-    """canonical time for comparison: a date is its floating midnight; aware values are instants"""
+    """canonical time for comparison: a date is a date (not the datetime of its midnight: the times of one alarm
+    are of one kind, so that they can be ordered); aware values are instants"""
     if is_date(v):
-        return ('f', (v - DEPOCH).days * 86400)
+        return ('d', (v - DEPOCH).days * 86400)
     if v.tzinfo is None:
         return ('f', wall(v))
     return ('a', inst(v))
